@@ -364,11 +364,32 @@ def _call_mean(api, trees, weights, cids, input_kind):
   return result, probe
 
 
+def apply_ties(case, trees):
+  """case['tied'] in ('first', 'later', 'all'): the tree is handed over as
+  {'orig': t, 'again': t'} where t' is the very same objects for the named
+  clients (tied weights: one array at two positions of the tree) and a separate
+  copy with equal values for the others, so every client has one structure."""
+  t = case.get('tied')
+  if not t:
+    return trees
+  out = []
+  for i, tree in enumerate(trees):
+    if t == 'all' or (t == 'first' and i == 0) or (t == 'later' and i > 0):
+      out.append({'orig': tree, 'again': tree})
+    else:
+      out.append({'orig': tree, 'again': jax.tree_util.tree_map(
+          lambda l: jnp.array(l) if _is_jax(l) else np.array(l), tree)})
+  return out
+
+
 def make_cids(n, kind):
   if kind == 'bytes':
     return [b'client-%d' % i for i in range(n)]
   if kind == 'int':
     return list(range(n))
+  if kind == 'repeated':
+    # a cohort sampled with replacement: ids come in pairs
+    return [b'client-%d' % (i // 2) for i in range(n)]
   return ['client-%d' % i for i in range(n)]
 
 
@@ -377,7 +398,8 @@ def run_mean(case, api):
   spec = case['tree']
   n = len(case['clients'])
   w64 = [float(c['w']) for c in case['clients']]
-  trees = [make_tree(spec, c['leaves'], case['leafkind'], c.get('int_leaves', ())) for c in case['clients']]
+  trees = apply_ties(case, [make_tree(spec, c['leaves'], case['leafkind'], c.get('int_leaves', ()))
+                            for c in case['clients']])
   weights = [make_weight(c['w'], case['wkind']) for c in case['clients']]
   cids = make_cids(n, case.get('cid_kind', 'bytes'))
   flats = [flat(t) for t in trees]
@@ -445,8 +467,8 @@ def run_pieces(case):
   # stated weight bound and known findings, decided on tree_mean)
   spec = json.loads(json.dumps(case['tree']).replace('"f16"', '"f32"'))
   w64 = [float(c['w']) for c in case['clients']]
-  trees = [make_tree(spec, c['leaves'], case['leafkind'], c.get('int_leaves', ()))
-           for c in case['clients']]
+  trees = apply_ties(case, [make_tree(spec, c['leaves'], case['leafkind'], c.get('int_leaves', ()))
+                            for c in case['clients']])
   flats = [flat(t) for t in trees]
   in_leaves = [f[0] for f in flats]
   treedef = flats[0][1]
@@ -512,7 +534,8 @@ def check_sum_values(in_np, out_leaves):
 def run_sum(case):
   spec = case['tree']
   n = len(case['clients'])
-  trees = [make_tree(spec, c['leaves'], case['leafkind'], c.get('int_leaves', ())) for c in case['clients']]
+  trees = apply_ties(case, [make_tree(spec, c['leaves'], case['leafkind'], c.get('int_leaves', ()))
+                            for c in case['clients']])
   flats = [flat(t) for t in trees]
   in_leaves = [f[0] for f in flats]
   treedef = flats[0][1]
@@ -832,8 +855,10 @@ def mean_case(draw, tier, api):
                                      'zip', 'oneshot'])),
       'perm': list(draw(st.permutations(list(range(n))))),
   }
+  if draw(st.integers(0, 4)) == 0:
+    case['tied'] = draw(st.sampled_from(['first', 'later', 'all']))
   if api == 'aggregator':
-    case['cid_kind'] = draw(st.sampled_from(['bytes', 'str', 'int']))
+    case['cid_kind'] = draw(st.sampled_from(['bytes', 'str', 'int', 'repeated']))
   mixed_dtypes(draw, spec, case['clients'])
   return case
 
@@ -854,6 +879,8 @@ def sum_case(draw, tier):
                                      'oneshot'])),
       'perm': list(draw(st.permutations(list(range(n))))),
   }
+  if draw(st.integers(0, 4)) == 0:
+    case['tied'] = draw(st.sampled_from(['first', 'later', 'all']))
   mixed_dtypes(draw, spec, case['clients'])
   return case
 
@@ -950,6 +977,10 @@ def _client_labels(case):
          'leafkind:' + case['leafkind']]
   if case['perm'] != list(range(n)):
     out.append('permuted')
+  if case.get('tied'):
+    out.append('tied_leaves:' + case['tied'])
+  if case.get('cid_kind') == 'repeated' and n > 1:
+    out.append('repeated_client_ids')
   if n > 1:
     first = case['clients'][0]['leaves']
     if all(c['leaves'] == first for c in case['clients']):
